@@ -154,6 +154,9 @@ def forms_case(fa, cid, g, ir, rnd):
     split = set(rnd.sample(named, rnd.randint(1, len(named)))) if named else set()
     if rnd.random() < 0.6:
         split |= {n for n in named if n.rsplit(".", 1)[-1].startswith("Ov")}      # the records of an overlapping union go by name together
+    if any(d["ns"] for d in g.defs.values()):
+        # a null-namespace type cannot be referred to by name from inside a namespace: it stays inline
+        split = {n for n in split if g.defs[n]["ns"] != ""}
     forms = [("raw", raw), ("parsed", parsed)]
     c["split"] = sorted(split)
     if split:
@@ -161,7 +164,16 @@ def forms_case(fa, cid, g, ir, rnd):
         shared = {}
         try:
             for pc in pieces:
-                fa.parse_schema(pc, shared)
+                if c["id"][-1] in "05":
+                    # every 5th case: a piece that stands on its own is parsed on its own first and then registered, already parsed,
+                    # into the shared dictionary (which by then holds other names)
+                    try:
+                        alone = fa.parse_schema(pc)
+                    except Exception:  # noqa: BLE001 - it refers to other pieces
+                        alone = pc
+                    fa.parse_schema(alone, shared)
+                else:
+                    fa.parse_schema(pc, shared)
             piecewise = fa.parse_schema(top, shared)
             forms.append(("piecewise", piecewise))
             c["dict_after"] = [proj.cps(k) for k in shared]
@@ -226,7 +238,8 @@ def run_c12(ctx, fa):
         if rnd.random() < 0.15:
             g.overlap_bias = 0.6
         if mode < 0.7:
-            g.pick_ns = lambda enclosing, _g=g: _g.r.choice(["a", "a", "a.b", "x.y"]) if _g.r.random() < 0.5 or not enclosing else enclosing
+            g.pick_ns = lambda enclosing, _g=g: ("" if enclosing and _g.r.random() < 0.1 else
+                                                 _g.r.choice(["a", "a", "a.b", "x.y"]) if _g.r.random() < 0.5 or not enclosing else enclosing)
         ir = g.schema(top=rnd.choice(["record"] * 9 + ["union", "array"]))
         if len(g.defs) < 1:
             continue
